@@ -518,39 +518,42 @@ def validate(ctx, traces, what, invariants, max_report=4):
     return accepted
 
 
-def canary_exact(ctx, traces, accepted, invariants, what):
-    """Corrupt one entry of one recorded matrix of an accepted exact trace: TLC must reject it."""
-    cands = [n for n in sorted(accepted) if traces[n]["kind"] == "exact"]
-    if not cands:
-        raise core.MachineryFailure(f"{what}: no accepted exact trace can carry the canary")
+def canaries(ctx, traces, accepted, invariants, what, facts):
+    """Binding self-test: corrupt one entry of one recorded matrix of an accepted exact trace and push one fact of an
+    accepted float trace beyond the tolerance (once per name in `facts`); TLC must reject every corrupted trace."""
     rnd = random.Random(ctx.seed)
-    bad = copy.deepcopy(strip(traces[rnd.choice(cands)]))
-    targets = [e for e in bad["ev"] if e["ev"] in ("op", "gop") and e.get("src", "code") == "code"]
-    e = rnd.choice(targets)
-    i, k = rnd.randrange(len(e["m"])), rnd.randrange(len(e["m"][0]))
-    a, b, d = e["m"][i][k]
-    e["m"][i][k] = [a + d, b, d]          # add 1 to one entry
-    acc, _ = ctx.validate_traces("FVOpsTrace", [bad], trace_cfg(invariants), name=f"canary[{what}/matrix-entry]", count=False)
+    bad, names = [], []
+    cands = [n for n in sorted(accepted) if traces[n]["kind"] == "exact"]
+    if cands:
+        t = copy.deepcopy(strip(traces[rnd.choice(cands)]))
+        e = rnd.choice([e for e in t["ev"] if e["ev"] in ("op", "gop") and e.get("src", "code") == "code"])
+        i, k = rnd.randrange(len(e["m"])), rnd.randrange(len(e["m"][0]))
+        x, y, d = e["m"][i][k]
+        e["m"][i][k] = [x + d, y, d]          # add 1 to one entry
+        bad.append(t)
+        names.append("matrix-entry")
+    fl = [n for n in sorted(accepted) if traces[n]["kind"] == "float"]
+    for fact in (facts if fl else []):
+        t = copy.deepcopy(strip(traces[fl[0]]))
+        for e in t["ev"]:
+            if fact in e["facts"]:
+                e["facts"][fact] = FLOAT_TOL + 1
+                break
+        else:
+            raise core.MachineryFailure(f"{what}: fact {fact} not recorded")
+        bad.append(t)
+        names.append(fact)
+    if fl:
+        t = copy.deepcopy(strip(traces[fl[0]]))
+        t["ev"][0]["kdim"] += 1               # a second zero mode on a connected mesh
+        bad.append(t)
+        names.append("kernel-dimension")
+    if not bad:
+        return
+    acc, _ = ctx.validate_traces("FVOpsTrace", bad, trace_cfg(invariants, accepted=False), name=f"canaries[{what}: {', '.join(names)}]", count=False)
     if acc:
-        raise core.MachineryFailure(f"{what}: corrupted matrix entry accepted -- the binding is vacuous")
-    ctx.cov["canaries_rejected"] += 1
-
-
-def canary_float(ctx, traces, accepted, invariants, what, fact):
-    cands = [n for n in sorted(accepted) if traces[n]["kind"] == "float"]
-    if not cands:
-        raise core.MachineryFailure(f"{what}: no accepted float trace can carry the canary")
-    bad = copy.deepcopy(strip(traces[cands[0]]))
-    for e in bad["ev"]:
-        if fact in e["facts"]:
-            e["facts"][fact] = FLOAT_TOL + 1
-            break
-    else:
-        raise core.MachineryFailure(f"{what}: fact {fact} not recorded")
-    acc, _ = ctx.validate_traces("FVOpsTrace", [bad], trace_cfg(invariants), name=f"canary[{what}/{fact}]", count=False)
-    if acc:
-        raise core.MachineryFailure(f"{what}: out-of-tolerance fact accepted -- the binding is vacuous")
-    ctx.cov["canaries_rejected"] += 1
+        raise core.MachineryFailure(f"{what}: corrupted traces accepted ({[names[n] for n in sorted(acc)]}) -- the binding is vacuous")
+    ctx.cov["canaries_rejected"] += len(bad)
 
 
 def replay_file(ctx, path, invariants, what):
@@ -559,8 +562,7 @@ def replay_file(ctx, path, invariants, what):
     if "trace" in rec and "ev" in rec["trace"] and rec["trace"].get("kind") in ("exact", "float"):
         validate(ctx, [rec["trace"]], what, invariants)
     elif "trace" in rec and "tol" in rec["trace"]:
-        from . import twin
-        twin.validate_twin(ctx, [rec["trace"]], what)
+        validate_twin(ctx, [rec["trace"]], what)
     elif "module" in rec and "cfg" in rec:
         ctx.model_check(rec["module"], rec["cfg"], name=f"{rec['module']}[replay]")
     else:
@@ -599,6 +601,35 @@ def float_meshes(ctx):
 
 
 # ------------------------------------------------------------------ C04, run level: two real runs in two gauges
+
+
+def validate_twin(ctx, traces, what):
+    """Twin validation of run pairs (as twin.validate_twin, with a concise report: the observation vectors are long)."""
+    from . import twin
+
+    norm = [{"tol": t["tol"], "minruns": t["minruns"], "ev": t["ev"]} for t in traces]
+    accepted, r = ctx.validate_traces("Twin", norm, twin.twin_cfg(), name=f"Twin[{what}]")
+    if "Accepted" in r.violated:
+        raise core.MachineryFailure(f"Twin[{what}]: a trace compares fewer runs than required (vacuous)")
+    ctx.cov["traces_validated_against_impl"] += sum(len({e["run"] for e in traces[n]["ev"]}) for n in accepted)
+    for n, t in enumerate(traces):
+        if n in accepted:
+            continue
+        far, violated, tail = ctx.diagnose_trace("Twin", norm[n], twin.twin_cfg())
+        ev = t["ev"][far - 1] if 0 < far <= len(t["ev"]) else None
+        first = next((e for e in t["ev"] if ev and e["key"] == ev["key"]), None)
+        if ev and first and len(ev["q"]) == len(first["q"]):
+            d = [abs(x - y) for x, y in zip(first["q"], ev["q"])]
+            k = max(range(len(d)), key=d.__getitem__)
+            detail = (f"entry {k}: run {first['run']} observed {first['q'][k]}, run {ev['run']} observed {ev['q'][k]} quanta; "
+                      f"{sum(1 for x in d if x > t['tol'])} of {len(d)} entries differ by more than {t['tol']} quanta")
+        else:
+            detail = "observation vectors of different length" if ev else "trace not consumed"
+        ctx.violation(f"{what}:{t.get('label', n)}:{ev['key'] if ev else '?'}",
+                      f"{what}: two real runs related by a gauge transformation disagree on {ev['key'] if ev else '?'} "
+                      f"(quantum = 1e-6 of the scale): {detail}; pair: {t.get('label')}",
+                      {"trace": {"tol": t["tol"], "minruns": t["minruns"], "ev": t["ev"], "label": t.get("label")}, "stuck_at": far})
+    return accepted
 
 OBS = ["abs_psi", "supercurrent", "normal_current", "mu_diff"]
 
